@@ -45,13 +45,14 @@ start = s.index("## 13. Seeded changes and which checks catch them")
 end = s.index("## Appendix A")
 intro = '''## 13. Seeded changes and which checks catch them
 
-Three rounds of independent sub-agents (one per claimed property and round)
+Four rounds of independent sub-agents (one per claimed property and round)
 were given only the text of one property and a private scratch worktree, and
 asked for two changes each that break the property, keep the pinned suite green
-and need something specific to manifest; rounds two and three were steered
+and need something specific to manifest; rounds two to four were steered
 towards state left by earlier calls, failures at interior points, unspecified
 behaviour of dependencies and cooperating edits, and were told which ideas were
-already taken (variants A/B = round 1, C/D = round 2, E/F = round 3). Every change was confirmed by
+already taken (variants A/B = round 1, C/D = round 2, E/F = round 3,
+G/H = round 4). Every change was confirmed by
 `tools/confirm_seeds.sh` in a scratch worktree (patch applies; no newly
 failing test; the agent's demo fails with the change and passes without) before
 it was filed under `/verif/seeded/<id>/` (`patch.diff`, `demo.py`, `notes.md`
@@ -102,6 +103,23 @@ C20-F to integers beyond 2**53 and to powers whose exponent cannot be
 represented; C17-F (`-0.0` rewritten in place) to negative zero in float data;
 C20-E to a permuted multi-field view of the raw storage; C15-F (an unpicklable
 result) to treating a result whose own accessors raise as a verdict.
+Round four: C13-G/H (a reader that seeks backwards; a reader that peeks) to
+forward-only streams chosen per step; C14-G/H (a bad *value* accepted or half
+applied) to `set_badvalue` steps and decorated repeated calls; C19-G/H to
+scribbling over returned accessor results and to infinities in the data; C18-G/H
+to abort-and-retry (an interrupted call followed by the same call) and bounds
+of every dtype; C11-G/H (narrow-dtype overflow; a cache primed by a narrower
+dtype) to narrow and large-valued data, a narrower-dtype primer and a
+systematic function x operand-kind sweep at the start of every batch (which also
+exposed the `floor_divide` dtype defect, §10); C07-G/H to the retain options in
+force during comparisons; C12-G/H to Fortran-ordered plain data and the
+numpy/Python scalar operand forms; C20-G/H to near-collision exponent tuples,
+subsets of the variable names and four or five names; C16-G/H to an interrupted
+print followed by the same print and to larger shapes (numpy's summarising
+threshold); C17-G/H to the `mode` keyword of `choose`; C15-G/H (and three side
+remarks about the unchanged tree, all reproduced and repaired, §10) to
+construction from dictionaries and without names, `isfinite`, `tonumpy` of
+constants and powers by a polynomial in the twin programs.
 
 '''
 s = s[:start] + intro + table + "\n\n---------------------------------------------------------------------------\n\n" + s[end:]
